@@ -18,7 +18,10 @@ ASSUMPTIONS = ['normalize_form (lower + NFKD without combining marks) is a param
 
 FORMS = ['wolf', 'Wolf', 'WOLF', 'wolves', 'résumé', 'resume', 'Résumé', 'RESUME', 'naïve', 'naive', 'San José', 'san jose', 'San Jose',
          'water bottle', 'Water Bottle', '水筒', 'ÅNGSTRÖM', 'angstrom', 'run', 'runs', 'ran', 'light', 'lights', 'Lights', 'go', 'went',
-         'İstanbul', 'istanbul', 'ß', 'ss', 'ǆ']
+         'İstanbul', 'istanbul', 'ß', 'ss', 'ǆ',
+         # marks of category Mn whose canonical combining class is 0 (Devanagari / Thai vowel signs) are letters
+         # of the word, not diacritics: the documented normalisation (lower, NFKD, combining marks dropped) keeps them
+         'कुल', 'कल', 'कूल', 'กิน', 'กน']
 QUERIES = FORMS + ['wolfs', 'Wolves', 'WOLVES', 'resumes', 'Resumes', 'lighter', 'nope', 'san josé', 'SAN JOSE', 'water  bottle', 'ﬁne', 'fine', '', ' ']
 
 
